@@ -118,3 +118,99 @@ Proof.
   - destruct l; [apply T_I|apply T_X|apply T_Y|apply T_Z]; assumption.
 Qed.
 End Extend.
+
+(* ---------- the same with any two distinct non-identity letters on the new qubit and two left factors ---------- *)
+Section Extend2.
+Variables (n : nat) (H : pstr -> Prop) (w1 w2 : pstr) (l1 l2 : pl).
+Hypothesis Hn : (2 <= n)%nat.
+Hypothesis HH : forall h, H h -> length h = n.
+Hypothesis Hfull : forall p, length p = n -> p <> identity n -> ClL H p.
+Hypothesis Lw1 : length w1 = n.
+Hypothesis Nw1 : w1 <> identity n.
+Hypothesis Lw2 : length w2 = n.
+Hypothesis Nw2 : w2 <> identity n.
+Hypothesis Hl1 : l1 <> PI.
+Hypothesis Hl2 : l2 <> PI.
+Hypothesis Hl12 : l1 <> l2.
+
+Definition Gext2 (q : pstr) : Prop := (exists h, H h /\ q = h ++ [PI]) \/ q = w1 ++ [l1] \/ q = w2 ++ [l2].
+Definition T2 (l : pl) (s : pstr) : Prop := ClL Gext2 (s ++ [l]).
+Let l3 := pm l1 l2.
+
+Lemma lift2 p : ClL H p -> length p = n /\ ClL Gext2 (p ++ [PI]).
+Proof.
+  induction 1 as [g Hg|a b _ [La IHa] _ [Lb IHb] Hab].
+  - split; [apply HH; exact Hg|]. apply cl_gen. left. exists g. split; [exact Hg|reflexivity].
+  - split; [rewrite smul_length; congruence|]. replace (smul a b ++ [PI]) with (smul (a ++ [PI]) (b ++ [PI])) by (rewrite smul_app by congruence; reflexivity).
+    apply cl_br; [exact IHa|exact IHb|]. rewrite anti_l_app by congruence. rewrite Hab. reflexivity.
+Qed.
+Lemma T2_I s : length s = n -> s <> identity n -> T2 PI s.
+Proof. intros Ls Ns. apply lift2. apply Hfull; assumption. Qed.
+Lemma T2_step l s q : T2 l s -> length s = n -> length q = n -> anti_l q s = true -> T2 l (smul q s).
+Proof.
+  intros Ts Ls Lq Ha. unfold T2. replace (smul q s ++ [l]) with (smul (q ++ [PI]) (s ++ [l])) by (rewrite smul_app by congruence; cbn; destruct l; reflexivity).
+  apply cl_br; [|exact Ts|].
+  - apply T2_I; [exact Lq|]. rewrite <- Lq. apply (anti_not_id_l q s Ha).
+  - rewrite anti_l_app by congruence. rewrite Ha. destruct l; reflexivity.
+Qed.
+Lemma T2_all l s0 : T2 l s0 -> length s0 = n -> s0 <> identity n -> forall t, length t = n -> t <> identity n -> T2 l t.
+Proof.
+  intros T0 L0 N0 t Lt Nt. destruct (both_witness n s0 t L0 Lt N0 Nt) as [v [Lv [A1 A2]]].
+  assert (Tv : T2 l v).
+  { replace v with (smul (smul v s0) s0) by (apply smul_self_cancel; congruence). apply T2_step; [exact T0|exact L0|rewrite smul_length; congruence|].
+    rewrite anti_l_smul_l by congruence. rewrite A1, anti_l_self. reflexivity. }
+  replace t with (smul (smul t v) v) by (apply smul_self_cancel; congruence). apply T2_step; [exact Tv|exact Lv|rewrite smul_length; congruence|].
+  rewrite anti_l_smul_l by congruence. rewrite (anti_l_sym t v), A2, anti_l_self. reflexivity.
+Qed.
+Lemma T2_1 s : length s = n -> s <> identity n -> T2 l1 s.
+Proof. apply (T2_all l1 w1); [apply cl_gen; right; left; reflexivity|exact Lw1|exact Nw1]. Qed.
+Lemma T2_2 s : length s = n -> s <> identity n -> T2 l2 s.
+Proof. apply (T2_all l2 w2); [apply cl_gen; right; right; reflexivity|exact Lw2|exact Nw2]. Qed.
+(* products of two members with the same / commuting left factors *)
+Lemma T2_prod la lb a b : la <> PI -> lb <> PI -> la <> lb -> T2 la a -> T2 lb b -> length a = n -> length b = n -> anti_l a b = false ->
+  T2 (pm la lb) (smul a b).
+Proof.
+  intros Ha Hb Hab Ta Tb La Lb Hc. unfold T2. replace (smul a b ++ [pm la lb]) with (smul (a ++ [la]) (b ++ [lb])) by (rewrite smul_app by congruence; reflexivity).
+  apply cl_br; [exact Ta|exact Tb|]. rewrite anti_l_app by congruence. rewrite Hc. destruct la, lb; try congruence; reflexivity.
+Qed.
+Lemma T2_3 s : length s = n -> s <> identity n -> T2 l3 s.
+Proof.
+  set (m := (n - 2)%nat). assert (En : n = S (S m)) by (unfold m; lia).
+  set (a := PX :: PI :: identity m). set (b := PI :: PX :: identity m).
+  assert (La : length a = n) by (unfold a; cbn [length]; rewrite identity_length; lia).
+  assert (Lb : length b = n) by (unfold b; cbn [length]; rewrite identity_length; lia).
+  assert (Na : a <> identity n) by (rewrite En; unfold a, identity; cbn; discriminate).
+  assert (Nb : b <> identity n) by (rewrite En; unfold b, identity; cbn; discriminate).
+  assert (Tab : T2 l3 (smul a b)).
+  { apply T2_prod; try assumption; [apply T2_1; assumption|apply T2_2; assumption|]. unfold a, b. cbn [anti_l]. rewrite anti_identity. reflexivity. }
+  apply (T2_all l3 (smul a b) Tab); [rewrite smul_length; congruence|]. rewrite En. unfold a, b, identity. cbn. discriminate.
+Qed.
+Lemma smul_self_n s : length s = n -> smul s s = identity n.
+Proof. intros <-. apply smul_self. Qed.
+Lemma T2_id3 : T2 l3 (identity n).
+Proof. rewrite <- (smul_self_n w1 Lw1). apply T2_prod; try assumption; [apply T2_1; assumption|apply T2_2; assumption|apply anti_l_self]. Qed.
+Lemma l3_props : l3 <> PI /\ l3 <> l1 /\ l3 <> l2 /\ pm l3 l2 = l1 /\ pm l1 l3 = l2.
+Proof. unfold l3. destruct l1, l2; try congruence; cbn; repeat split; congruence. Qed.
+Lemma T2_id1 : T2 l1 (identity n).
+Proof.
+  destruct l3_props as [P1 [P2 [P3 [P4 P5]]]]. rewrite <- P4, <- (smul_self_n w1 Lw1).
+  apply T2_prod; try assumption; [apply T2_3; assumption|apply T2_2; assumption|apply anti_l_self].
+Qed.
+Lemma T2_id2 : T2 l2 (identity n).
+Proof.
+  destruct l3_props as [P1 [P2 [P3 [P4 P5]]]]. rewrite <- P5, <- (smul_self_n w1 Lw1).
+  apply T2_prod; try assumption; [congruence|apply T2_1; assumption|apply T2_3; assumption|apply anti_l_self].
+Qed.
+Lemma letter_cases l : l = PI \/ l = l1 \/ l = l2 \/ l = l3.
+Proof. unfold l3. destruct l, l1, l2; try congruence; cbn; tauto. Qed.
+
+Theorem extend2_full p : length p = S n -> p <> identity (S n) -> ClL Gext2 p.
+Proof.
+  intros Lp Np. assert (Hp : p <> []) by (intros ->; cbn in Lp; lia). destruct (exists_last Hp) as [s [l ->]].
+  rewrite app_length in Lp. cbn [length] in Lp. assert (Ls : length s = n) by lia.
+  assert (Eid : identity (S n) = identity n ++ [PI]) by (unfold identity; rewrite <- repeat_cons; reflexivity).
+  destruct (pstr_dec s (identity n)) as [->|Ns].
+  - destruct (letter_cases l) as [->|[->|[->| ->]]]; [exfalso; apply Np; rewrite Eid; reflexivity|apply T2_id1|apply T2_id2|apply T2_id3].
+  - destruct (letter_cases l) as [->|[->|[->| ->]]]; [apply T2_I|apply T2_1|apply T2_2|apply T2_3]; assumption.
+Qed.
+End Extend2.
